@@ -209,7 +209,7 @@ theorem onlyKey_erase (k : Key) (n : Node) : OnlyKey k n { n with store := n.sto
 theorem onlyKey_spray (k : Key) (n : Node) (m : SprayMeta) : OnlyKey k n { n with spray := setMeta n.spray k m } :=
   ⟨⟨rfl, rfl, rfl, rfl⟩, fun _ _ => rfl, fun _ hk => lookupMeta_setMeta_ne _ _ _ _ hk⟩
 
-theorem onlyKey_attempts (k : Key) (n : Node) (a : List ((Nat × Nat) × Nat)) :
+theorem onlyKey_attempts (k : Key) (n : Node) (a : List ((Nat × Nat × Nat) × Nat)) :
     OnlyKey k n { n with attempts := a } :=
   ⟨⟨rfl, rfl, rfl, rfl⟩, fun _ _ => rfl, fun _ _ => rfl⟩
 
@@ -443,7 +443,7 @@ theorem rtStep_modRt (k : Key) (f : Routing → Routing) (n : Node) : RtStep k n
 theorem rtStep_spray (k : Key) (n : Node) (m : SprayMeta) : RtStep k n { n with spray := setMeta n.spray k m } :=
   ⟨onlyKey_spray k n m, fun it h => ⟨it, h, rfl, rfl, rfl, rfl, id⟩, id, rfl, rfl⟩
 
-theorem rtStep_attempts (k : Key) (n : Node) (a : List ((Nat × Nat) × Nat)) :
+theorem rtStep_attempts (k : Key) (n : Node) (a : List ((Nat × Nat × Nat) × Nat)) :
     RtStep k n { n with attempts := a } :=
   ⟨onlyKey_attempts k n a, fun it h => ⟨it, h, rfl, rfl, rfl, rfl, id⟩, id, rfl, rfl⟩
 
